@@ -357,6 +357,12 @@ class Sym:
         self.depth = depth
 
     def accessor_body(self, fid):
+        cache = self.F.__dict__.setdefault("_accessor", {})
+        if fid not in cache:
+            cache[fid] = self._accessor_body(fid)
+        return cache[fid]
+
+    def _accessor_body(self, fid):
         b = self.F.body(fid)
         if b is None:
             return None
@@ -574,6 +580,14 @@ def symbolize(facts, fid, path):
 
 
 def sym_paths(facts, fid, loop_iters=2):
+    cache = facts.__dict__.setdefault("_sympaths", {})
+    key = (fid, loop_iters)
+    if key not in cache:
+        cache[key] = _sym_paths(facts, fid, loop_iters)
+    return cache[key]
+
+
+def _sym_paths(facts, fid, loop_iters=2):
     b = facts.body(fid)
     if b is None or b.get("body") is None:
         raise AnalysisBroken("no body for function %s" % facts.fdisp(fid))
